@@ -14,9 +14,30 @@ from . import monitors as M
 PL_TYPES = None
 
 
+class PanicException(Exception):
+    """An engine panic (pyo3_runtime.PanicException derives from BaseException) re-raised as an ordinary exception of the
+    same name, so that no `except Exception` of the harness lets one kill a worker: a dead worker makes a run inconclusive."""
+
+
 def _pl():
     import polars as pl
 
+    if not getattr(pl.LazyFrame.collect, "_pdtverif_tamed", False):
+        try:
+            from polars.exceptions import PanicException as _EnginePanic
+        except Exception:  # noqa: BLE001
+            return pl
+        orig = pl.LazyFrame.collect
+
+        def collect(self, *a, **kw):
+            try:
+                return orig(self, *a, **kw)
+            except _EnginePanic as e:
+                raise PanicException(str(e)) from None
+
+        collect._pdtverif_tamed = True
+        collect.__wrapped__ = orig
+        pl.LazyFrame.collect = collect
     return pl
 
 
@@ -526,3 +547,6 @@ def predict_right_names(left: ref.RTable, right: ref.RTable, st, handles=None):
 
 def dumps(obj):
     return json.dumps(obj, default=str, sort_keys=True)
+
+
+_pl()  # install the panic taming as soon as the drivers are loaded
